@@ -1,0 +1,98 @@
+//go:build verif
+
+package encapsulation
+
+// Machine-checked contracts for this package (read by /verif/engine; comment-only file,
+// compiled only with -tags verif, adds no code). Syntax: DESIGN.md section 3.7.
+//
+// The oracle is the six-row format table in the package comment:
+//   plen(v)          number of prefix bytes of the minimal encoding of v
+//   hdrK(b.., d)     b.. is a well-formed K-byte prefix whose data bit equals d
+//   decK(b..)        the length announced by a K-byte prefix
+//
+//@ default model bv
+//@ spec func plen(v int) int = ite(v < 64, 1, ite(v < 8192, 2, 3))
+//@ spec func dec1(b0 byte) int = int(b0 & 0x3f)
+//@ spec func dec2(b0 byte, b1 byte) int = (int(b0&0x3f) << 7) | int(b1&0x7f)
+//@ spec func dec3(b0 byte, b1 byte, b2 byte) int = (((int(b0&0x3f) << 7) | int(b1&0x7f)) << 7) | int(b2&0x7f)
+//@ spec func hdr1(b0 byte, d bool) bool = b0&0x40 == 0 && ((b0&0x80 != 0) == d)
+//@ spec func hdr2(b0 byte, b1 byte, d bool) bool = b0&0x40 != 0 && b1&0x80 == 0 && ((b0&0x80 != 0) == d)
+//@ spec func hdr3(b0 byte, b1 byte, b2 byte, d bool) bool = b0&0x40 != 0 && b1&0x80 != 0 && b2&0x80 == 0 && ((b0&0x80 != 0) == d)
+//
+//@ func dataPrefixForLength(n int) (r []byte, err error)
+//@   props C09
+//@   ensures 0 <= n && n < 1<<20 ==> err == nil && len(r) == plen(n)
+//@   ensures 0 <= n && n < 64 ==> hdr1(r[0], true) && dec1(r[0]) == n
+//@   ensures 64 <= n && n < 8192 ==> hdr2(r[0], r[1], true) && dec2(r[0], r[1]) == n
+//@   ensures 8192 <= n && n < 1<<20 ==> hdr3(r[0], r[1], r[2], true) && dec3(r[0], r[1], r[2]) == n
+//@   ensures !(0 <= n && n < 1<<20) ==> r == nil && err == ErrTooLong
+//@   ensures err == nil || err == ErrTooLong
+//
+//@ func MaxDataForSize(n int) (r int)
+//@   props C09
+//@   panics when n == 0
+//@   requires n >= 1
+//@   ensures 0 <= r && r < 1<<20 && r + plen(r) <= n
+//
+// WriteData: on success the bytes appended to the writer are prefix(len(data)) ++ data.
+//@ func WriteData(w io.Writer, data []byte) (total int, err error)
+//@   props C09
+//@   requires w != nil && 0 <= w.n && w.n <= 1<<40
+//@   ensures len(data) >= 1<<20 ==> err == ErrTooLong && total == 0 && w.n == old(w.n)
+//@   ensures w.n == old(w.n) + total
+//@   ensures err == nil ==> len(data) < 1<<20 && total == plen(len(data)) + len(data)
+//@   ensures err == nil && len(data) < 64 ==> hdr1(w.out[old(w.n)], true) && dec1(w.out[old(w.n)]) == len(data)
+//@   ensures err == nil && 64 <= len(data) && len(data) < 8192 ==> hdr2(w.out[old(w.n)], w.out[old(w.n)+1], true) && dec2(w.out[old(w.n)], w.out[old(w.n)+1]) == len(data)
+//@   ensures err == nil && 8192 <= len(data) ==> hdr3(w.out[old(w.n)], w.out[old(w.n)+1], w.out[old(w.n)+2], true) && dec3(w.out[old(w.n)], w.out[old(w.n)+1], w.out[old(w.n)+2]) == len(data)
+//@   ensures err == nil ==> forall k int :: 0 <= k && k < len(data) ==> w.out[old(w.n) + plen(len(data)) + k] == old(data[k])
+//@   ensures forall k int :: 0 <= k && k < old(w.n) ==> w.out[k] == old(w.out)[k]
+//
+// WritePadding: every iteration appends one well-formed padding chunk (prefix announcing p, then p bytes)
+// whose total size is what was subtracted from n; on success exactly n bytes were written.
+//@ func WritePadding(w io.Writer, n int) (total int, err error)
+//@   props C09
+//@   panics when n < 0
+//@   requires n >= 0 && w != nil && 0 <= w.n && w.n <= 1<<40
+//@   loop 1 invariant n >= 0 && total >= 0 && total + n == entry(n) && w.n == old(w.n) + total
+//@   at call Write#1 assert len(prefix) >= 1 && len(prefix) <= 3 && p >= 0 && total + n + len(prefix) + p == entry(n)
+//@   at call Write#1 assert {prefix1} len(prefix) == 1 ==> hdr1(prefix[0], false) && dec1(prefix[0]) == p
+//@   at call Write#1 assert {prefix2} len(prefix) == 2 ==> hdr2(prefix[0], prefix[1], false) && dec2(prefix[0], prefix[1]) == p
+//@   at call Write#1 assert {prefix3} len(prefix) == 3 ==> hdr3(prefix[0], prefix[1], prefix[2], false) && dec3(prefix[0], prefix[1], prefix[2]) == p
+//@   at call Write#2 assert {body} len(arg0) == p && total + n + p == entry(n)
+//@   ensures err == nil ==> total == n
+//@   ensures w.n == old(w.n) + total
+//
+// ReadData against an oracle defined on the raw byte stream alone (no well-formedness assumed).
+// d = the reader's ghost byte stream, L its length, q a position.
+//@ spec func pk(d seq, q int) int = ite(d[q]&0x40 == 0, 1, ite(d[q+1]&0x80 == 0, 2, 3))
+//@ spec func pv(d seq, q int) int = ite(d[q]&0x40 == 0, dec1(d[q]), ite(d[q+1]&0x80 == 0, dec2(d[q], d[q+1]), dec3(d[q], d[q+1], d[q+2])))
+//@ spec func prefixCut(d seq, L int, q int) bool = q < L && d[q]&0x40 != 0 && (q+1 == L || (d[q+1]&0x80 != 0 && q+2 == L))
+//@ spec func tooLong(d seq, L int, q int) bool = q+2 < L && d[q]&0x40 != 0 && d[q+1]&0x80 != 0 && d[q+2]&0x80 != 0
+//@ spec func chunkOK(d seq, L int, q int) bool = q < L && !prefixCut(d, L, q) && !tooLong(d, L, q) && q + pk(d, q) + pv(d, q) <= L
+//@ spec func bodyCut(d seq, L int, q int) bool = q < L && !prefixCut(d, L, q) && !tooLong(d, L, q) && q + pk(d, q) + pv(d, q) > L
+//@ spec func isPad(d seq, L int, q int) bool = chunkOK(d, L, q) && d[q]&0x80 == 0
+//@ spec func isData(d seq, L int, q int) bool = chunkOK(d, L, q) && d[q]&0x80 != 0
+//@ spec func rec firstData(d seq, L int, q int) int = ite(isPad(d, L, q), firstData(d, L, q + pk(d, q) + pv(d, q)), q)
+//@   decreases L - q
+//
+//@ ghost var q int
+//
+//@ func ReadData(r io.Reader) (p []byte, err error)
+//@   props C09
+//@   requires r != nil && 0 <= r.pos && r.pos <= r.L && r.L <= 1<<40
+//@   at call ReadFull#1 ghost q = r.pos
+//@   loop 1 invariant 0 <= r.pos && r.pos <= r.L
+//@   loop 1 invariant {skip-padding} firstData(r.data, r.L, r.pos) == firstData(r.data, r.L, old(r.pos))
+//@   loop 2 invariant 0 <= i && i <= 2 && 0 <= q && q < r.L && q + 1 + i == r.pos && r.pos <= r.L
+//@   loop 2 invariant {skip-padding} firstData(r.data, r.L, q) == firstData(r.data, r.L, old(r.pos))
+//@   loop 2 invariant {isdata} isData == (r.data[q]&0x80 != 0)
+//@   loop 2 invariant {prefix1} i == 0 ==> moreLength == (r.data[q]&0x40 != 0) && n == dec1(r.data[q])
+//@   loop 2 invariant {prefix2} i == 1 ==> r.data[q]&0x40 != 0 && moreLength == (r.data[q+1]&0x80 != 0) && n == dec2(r.data[q], r.data[q+1])
+//@   loop 2 invariant {prefix3} i == 2 ==> r.data[q]&0x40 != 0 && r.data[q+1]&0x80 != 0 && moreLength == (r.data[q+2]&0x80 != 0) && n == dec3(r.data[q], r.data[q+1], r.data[q+2])
+//@   at call make assert {alloc-is-announced-length} 0 <= size && size < 1<<20 && size == pv(r.data, q)
+//@   ensures {data} isData(r.data, r.L, firstData(r.data, r.L, old(r.pos))) ==> err == nil && len(p) == pv(r.data, firstData(r.data, r.L, old(r.pos))) && r.pos == firstData(r.data, r.L, old(r.pos)) + pk(r.data, firstData(r.data, r.L, old(r.pos))) + len(p)
+//@   ensures {data-bytes} err == nil ==> forall k int :: 0 <= k && k < len(p) ==> p[k] == r.data[firstData(r.data, r.L, old(r.pos)) + pk(r.data, firstData(r.data, r.L, old(r.pos))) + k]
+//@   ensures {nil-only-for-data} err == nil ==> isData(r.data, r.L, firstData(r.data, r.L, old(r.pos)))
+//@   ensures {eof-iff-at-boundary} ((err == io.EOF) <==> (firstData(r.data, r.L, old(r.pos)) == r.L))
+//@   ensures {unexpected-eof-inside-chunk} (prefixCut(r.data, r.L, firstData(r.data, r.L, old(r.pos))) || bodyCut(r.data, r.L, firstData(r.data, r.L, old(r.pos)))) ==> err == io.ErrUnexpectedEOF
+//@   ensures {too-long} tooLong(r.data, r.L, firstData(r.data, r.L, old(r.pos))) ==> err == ErrTooLong
